@@ -340,6 +340,8 @@ def fails(inst, nmax):
 
 def run(ctx):
     ctx.prove()
+    from props import genreg
+    genreg.steps(ctx, ("arcenum",))      # variable enumeration regenerated from the source (C18_arc_gen)
     rng = ctx.rng
     nmax = 14 if ctx.quick else 16
     n_random = 260 if ctx.quick else 2500
